@@ -1,6 +1,6 @@
 """C05 - canonical proto3 JSON mapping (K1-K3 + J1)."""
 from . import jsonrules
-from .c15 import rule_Q4
+from .c15 import rule_Q4, rule_Q2
 
 PROP = "C05"
 TECHNIQUE = "constant/table conformance against the reference's json_format source text; transform-class table vs the proto3 JSON mapping; float-taint lint on the emitters"
@@ -15,8 +15,9 @@ RULE_TEXT = "obligation = (rule, constant / default / (shape, type)); evaluation
 
 
 def run(ctx) -> None:
-    ctx.rules_run += ["K1", "K2", "K3", "J1", "Q4", "J4", "J5"]
+    ctx.rules_run += ["K1", "K2", "K3", "J1", "Q4", "Q2", "J4", "J5"]
     rule_Q4(ctx)
+    rule_Q2(ctx)      # the JSON emitters must not push wide integers through float
     jsonrules.rule_J4(ctx)
     jsonrules.rule_J5(ctx)
     jsonrules.rule_K1(ctx)
